@@ -278,8 +278,29 @@ class Exec:
             res = m
         return res
 
+    def eval_truth(self, st, e):
+        """truth value of a test expression.  `a and b` / `a or b` / `not a` in a test position only need the truth of their
+        operands (args and args[0] in (...)), not a merged value; short-circuit evaluation is kept."""
+        if isinstance(e, ast.BoolOp):
+            isand = isinstance(e.op, ast.And)
+            terms, pushed = [], 0
+            try:
+                for v in e.values:
+                    t = simplify(self.eval_truth(st, v))
+                    terms.append(t)
+                    if (isand and is_false(t)) or ((not isand) and is_true(t)):
+                        break
+                    st.guards.append(t if isand else Not(t)); pushed += 1
+            finally:
+                for _ in range(pushed):
+                    st.guards.pop()
+            return And(*terms) if isand else Or(*terms)
+        if isinstance(e, ast.UnaryOp) and isinstance(e.op, ast.Not):
+            return Not(self.eval_truth(st, e.operand))
+        return self.truth(st, self.eval(st, e))
+
     def e_IfExp(self, st, e):
-        c = simplify(self.truth(st, self.eval(st, e.test)))
+        c = simplify(self.eval_truth(st, e.test))
         if is_true(c):
             return self.eval(st, e.body)
         if is_false(c):
@@ -574,7 +595,11 @@ class Exec:
             else:
                 raise OutOfSubset('missing argument %s' % p)
         if a.vararg is not None:
-            env[a.vararg.arg] = T(args[len(params):])
+            # '*' / '**' in kwargs: a symbolic argument tuple / keyword mapping handed over as a whole (theories' call hooks)
+            env[a.vararg.arg] = kwargs['*'] if ('*' in kwargs and len(args) <= len(params)) else T(args[len(params):])
+        if a.kwarg is not None:
+            env[a.kwarg.arg] = kwargs['**'] if '**' in kwargs else SV('kwargs', None, items={
+                k: v for k, v in kwargs.items() if k not in params and k not in {p.arg for p in a.kwonlyargs} and k != '*'})
         for p, d in zip(a.kwonlyargs, a.kw_defaults):
             if p.arg in kwargs:
                 env[p.arg] = kwargs[p.arg]
@@ -582,7 +607,7 @@ class Exec:
                 env[p.arg] = ('default', d)
             else:
                 raise OutOfSubset('missing keyword-only argument %s' % p.arg)
-        extra = set(kwargs) - set(params) - {p.arg for p in a.kwonlyargs}
+        extra = set(kwargs) - set(params) - {p.arg for p in a.kwonlyargs} - {'*', '**'}
         if extra and a.kwarg is None:
             raise OutOfSubset('unexpected keyword %s' % extra)
         return env
@@ -658,7 +683,11 @@ class Exec:
                 if m is NotImplemented:
                     raise OutOfSubset('inlined %s returns values of different shape (%s / %s)' % (fname, v.kind, val.kind))
             val = m
-        # the disjunction of return conditions holds on the continuing path
+        # the disjunction of return conditions holds on the continuing path (facts assumed inside the callee on its
+        # returning paths - e.g. "the comprehension completed" - would otherwise be lost to the caller)
+        conds = [simplify(c) for c, _ in rets]
+        if not any(is_true(c) for c in conds):
+            st.assume(Or(*conds) if len(conds) > 1 else conds[0])
         return val
 
     # ------------------------------------------------------------------ statements
@@ -753,6 +782,13 @@ class Exec:
             return
         if isinstance(target_expr, ast.Name):
             st.env[target_expr.id] = newval
+        elif isinstance(target_expr, ast.Attribute):
+            # self.cache[key] = v: the updated container is stored back into the attribute of its (local) owner
+            owner = self.eval(st, target_expr.value)
+            r = self._dispatch('store_attr', st, target_expr, owner, target_expr.attr, newval)
+            if r is NotImplemented:
+                raise OutOfSubset('mutation through %s' % ast.unparse(target_expr)[:40])
+            self._rebind(st, target_expr.value, r)
         else:
             raise OutOfSubset('mutation through %s' % ast.unparse(target_expr)[:40])
 
@@ -817,7 +853,7 @@ class Exec:
         return res
 
     def s_If(self, st, s):
-        c = simplify(self.truth(st, self.eval(st, s.test)))
+        c = simplify(self.eval_truth(st, s.test))
         pend = self._flush(st)
         if is_true(c):
             return pend + self.run_block(st, s.body)
@@ -991,16 +1027,34 @@ class Exec:
     def s_For(self, st, s):
         spec = self.loops.get(id(s))
         if spec is None:
-            r = self._for_concrete(st, s)
+            r = self._for_concrete(st, s)       # statically known items (tuple display, a theory's concrete_items)
             if r is not None:
                 return r
-            raise OutOfSubset('for loop at line %d has no sidecar invariant' % s.lineno)
         if s.orelse:
             raise OutOfSubset('for/else')
         it = self.eval(st, s.iter)
         seq = self.iterate(st, it)     # -> (length z3 Int, at(st, k) -> SV)
         n, at = seq
         pend = self._flush(st)
+        if spec is None:
+            # a sequence of statically known, small length (literal list / tuple, range(3)) is unrolled: complete, no invariant needed
+            nn = simplify(n) if z3.is_expr(n) else IntVal(n)
+            if not z3.is_int_value(nn) or nn.as_long() > 16:
+                raise OutOfSubset('for loop at line %d has no sidecar invariant' % s.lineno)
+            res, live = list(pend), [st]
+            for k in range(nn.as_long()):
+                nxt = []
+                for cur in live:
+                    self.assign(cur, s.target, at(cur, IntVal(k)), s)
+                    for o in self.run_block(cur, s.body):
+                        if o.kind in ('next', 'continue'):
+                            nxt.append(o.st)
+                        elif o.kind == 'break':
+                            res.append(Outcome('next', o.st))
+                        else:
+                            res.append(o)
+                live = nxt
+            return res + [Outcome('next', c) for c in live]
         kname = spec.name + '.k'
         st.ghost[kname] = IntVal(0)
         st.ghost[spec.name + '.n'] = n
